@@ -36,6 +36,8 @@ def tyname(t):
         return t[1]
     if t[0] == "ptr":
         return ("^mut " if t[1] else "^") + tyname(t[2])
+    if t[0] == "slice":
+        return "[]" + tyname(t[1])
     raise ValueError(t)
 
 
@@ -388,6 +390,89 @@ class Gen:
             ss += show()
         return ss
 
+    # ------------------------------------------------------------------ slices
+    def usize_lit(self, v):
+        return {"e": "int", "ty": {"w": 8, "s": False}, "b": list(v.to_bytes(8, "little")), "usize": True}
+
+    def slice_helper_fns(self):
+        var = lambda n: {"e": "var", "n": n}
+        blk = lambda ss, tail: {"e": "blk", "label": "", "ss": ss, "tail": tail}
+        US = ("int", 8, False)
+        SL = ("slice", I32)
+        k = self.r.randrange(2, 6)
+        # sl_sum :: (s: []i32) -> i32 { t : i32 = 0; i : usize = 0; while i < s.len { t = t * k + s[i]; i += 1; } t }
+        loop = {"s": "while", "label": "", "c": {"e": "bin", "op": "lt", "l": var("i"), "r": {"e": "len", "x": var("s")}},
+                "body": blk([{"s": "set", "l": {"l": "var", "n": "t"},
+                              "x": {"e": "bin", "op": "add", "l": {"e": "bin", "op": "mul", "l": var("t"), "r": self.int_lit(I32, k)},
+                                    "r": {"e": "idx", "a": var("s"), "i": var("i")}}},
+                             {"s": "cset", "op": "add", "l": {"l": "var", "n": "i"}, "x": self.usize_lit(1)}], NONE)}
+        f1 = {"name": "sl_sum", "params": [{"n": "s", "ty": SL}], "ret": I32,
+              "body": blk([{"s": "let", "n": "t", "x": self.int_lit(I32, 0), "ty": I32, "mut": True},
+                           {"s": "let", "n": "i", "x": self.usize_lit(0), "ty": US, "mut": True, "usize": True},
+                           loop], var("t"))}
+        # sl_set :: (s: []i32, i: usize, v: i32) { t : []i32 = s; t[i] = v; }   (parameters are immutable)
+        f2 = {"name": "sl_set", "params": [{"n": "s", "ty": SL}, {"n": "i", "ty": "usize"}, {"n": "v", "ty": I32}], "ret": None,
+              "body": blk([{"s": "let", "n": "t", "x": var("s"), "ty": SL, "mut": True},
+                           {"s": "set", "l": {"l": "idx", "a": {"l": "var", "n": "t"}, "i": var("i")}, "x": var("v")}], NONE)}
+        return [f1, f2]
+
+    def stmt_slice(self):
+        """a slice over a mutable [n]i32 variable: reads, stores through it and through the array,
+        .len, helper calls, re-pointing it at an array of another length, copying it back"""
+        r = self.r
+        ss = []
+
+        def arr_var(avoid=None):
+            cands = [c for c in self.vars_of(lambda vt, m: m and vt[0] == "arr" and vt[2] == I32) if c[0] != avoid]
+            if cands and r.random() < 0.6:
+                return r.choice(cands)[:2]
+            n = r.choice([2, 3, 4])
+            t = ("arr", n, I32)
+            x = self.fresh()
+            ss.append({"s": "let", "n": x, "x": self.expr(t), "ty": t, "mut": True})
+            self.declare(x, t, True)
+            return x, t
+        a, at = arr_var()
+        n = at[1]
+        sn = self.fresh("s")
+        SL = ("slice", I32)
+        ss.append({"s": "let", "n": sn, "x": {"e": "slice", "l": {"l": "var", "n": a}}, "ty": SL, "mut": True})
+        sv = {"e": "var", "n": sn}
+        av = {"e": "var", "n": a}
+
+        def show():
+            k = r.randrange(n)
+            out = [{"s": "print", "x": {"e": "idx", "a": r.choice([sv, av]), "i": self.index_lit(k)}, "ty": I32}]
+            if r.random() < 0.5:
+                out.append({"s": "print", "x": {"e": "call", "f": "sl_sum", "args": [r.choice([sv, {"e": "slice", "l": {"l": "var", "n": a}}])]}, "ty": I32})
+            return out
+        for _ in range(r.randrange(2, 5)):
+            k = r.random()
+            if k < 0.3:
+                ss.append({"s": "set", "l": {"l": "idx", "a": {"l": "var", "n": sn}, "i": self.index_lit(r.randrange(n))}, "x": self.expr(I32)})
+            elif k < 0.45:
+                ss.append({"s": "cset", "op": r.choice(["add", "xor"]), "l": {"l": "idx", "a": {"l": "var", "n": sn}, "i": self.index_lit(r.randrange(n))}, "x": self.expr(I32)})
+            elif k < 0.6:
+                ss.append({"s": "set", "l": {"l": "idx", "a": {"l": "var", "n": a}, "i": self.index_lit(r.randrange(n))}, "x": self.expr(I32)})
+            elif k < 0.72:
+                ss.append({"s": "expr", "x": {"e": "call", "f": "sl_set", "args": [sv, self.usize_lit(r.randrange(n)), self.expr(I32, 2)]}})
+            elif k < 0.8:
+                ss.append({"s": "print", "x": {"e": "len", "x": r.choice([sv, av])}, "ty": ("int", 8, False), "usize": True})
+            elif k < 0.9:
+                # a copy of the referenced array does not follow later stores
+                cp = self.fresh()
+                ss.append({"s": "let", "n": cp, "x": {"e": "toarr", "x": sv, "n": n}, "ty": at, "mut": False})
+                ss.append({"s": "set", "l": {"l": "idx", "a": {"l": "var", "n": sn}, "i": self.index_lit(0)}, "x": self.expr(I32)})
+                ss.append({"s": "print", "x": {"e": "idx", "a": {"e": "var", "n": cp}, "i": self.index_lit(0)}, "ty": I32})
+            else:
+                # the slice now references another array (possibly of another length)
+                b, bt = arr_var(avoid=a)
+                ss.append({"s": "set", "l": {"l": "var", "n": sn}, "x": {"e": "slice", "l": {"l": "var", "n": b}}})
+                a, at, n, av = b, bt, bt[1], {"e": "var", "n": b}
+                ss.append({"s": "print", "x": {"e": "len", "x": sv}, "ty": ("int", 8, False), "usize": True})
+            ss += show()
+        return ss
+
     def read_of(self, l):
         """the expression reading place l (built from variables only)"""
         if l["l"] == "var":
@@ -494,7 +579,7 @@ class Gen:
                 continue
             if self.ptr_helpers and not self.noprint and self.r.random() < 0.08:
                 self.budget -= 3
-                ss += self.stmt_ptr()
+                ss += self.stmt_ptr() if self.r.random() < 0.6 else self.stmt_slice()
                 continue
             ss.append(self.stmt(allow_jump))
         self.scopes.pop()
@@ -508,6 +593,19 @@ class Gen:
             return self.stmt_let()
         if k < 0.4:
             return self.stmt_print()
+        if k < 0.43:
+            # an aggregate literal that reads the variable it is assigned to (evaluated before the store)
+            cands = self.vars_of(lambda vt, m: m and (vt == REC_P or (vt[0] == "arr" and vt[2][0] == "int")))
+            if cands:
+                n, t, _ = r.choice(cands)
+                v = {"e": "var", "n": n, "ty": t}
+                if t == REC_P:
+                    x = {"e": "rec", "ty": "P", "fs": [
+                        {"n": "a", "x": {"e": "cast", "ty": jty(I32), "x": {"e": "fld", "x": v, "f": "b"}}},
+                        {"n": "b", "x": {"e": "cast", "ty": jty(U8), "x": {"e": "fld", "x": v, "f": "a"}}}]}
+                else:
+                    x = {"e": "arr", "elem": t[2], "es": [{"e": "idx", "a": v, "i": self.index_lit(t[1] - 1 - j)} for j in range(t[1])]}
+                return {"s": "set", "l": {"l": "var", "n": n}, "x": x}
         if k < 0.55:
             p = self.place()
             if p:
@@ -624,7 +722,7 @@ class Gen:
                 continue
             if self.ptr_helpers and not self.noprint and self.r.random() < 0.12:
                 self.budget -= 3
-                ss += self.stmt_ptr()
+                ss += self.stmt_ptr() if self.r.random() < 0.6 else self.stmt_slice()
                 continue
             ss.append(self.stmt())
         tail = self.expr(ret) if ret is not None else NONE
@@ -645,7 +743,7 @@ class Gen:
         self.noprint = False
         fns.append(self.try_helper())
         self.has_try = True
-        fns += self.ptr_helper_fns()
+        fns += self.ptr_helper_fns() + self.slice_helper_fns()
         self.ptr_helpers = True
         main = self.function("main", [], I32, self.size)
         if self.want_fault:
@@ -731,6 +829,12 @@ class Render:
             return "%s(%s, %s)" % ("#is_variant" if k == "isvar" else "#unwrap", self.expr(e["x"]), self.vty(e["sty"], e["k"]))
         if k == "try":
             return "%s.try" % self.expr(e["x"])
+        if k == "slice":
+            return self.place(e["l"])                # arrays fit into slice types by themselves
+        if k == "len":
+            return "%s.len" % self.expr(e["x"])
+        if k == "toarr":
+            return "[%d]i32.(%s)" % (e["n"], self.expr(e["x"]))
         if k == "ref":
             return "%s%s" % ("^mut " if e["m"] else "^", self.place(e["l"]))
         if k == "deref":
@@ -780,7 +884,8 @@ class Render:
             self.t += 1
             t = self.tup(s["ty"])
             w = 1 if t[0] == "bool" else t[1]
-            return ["{ t_%d : %s = %s; emit(^t_%d, %d); nl(); };" % (self.t, tyname(t), self.indent(self.expr(s["x"])), self.t, w)]
+            tn = "usize" if s.get("usize") else tyname(t)
+            return ["{ t_%d : %s = %s; emit(^t_%d, %d); nl(); };" % (self.t, tn, self.indent(self.expr(s["x"])), self.t, w)]
         if k == "expr":
             if s.get("flat"):
                 out = []
